@@ -433,7 +433,7 @@ class Controller:
                 q.dirty = True
         return self.run()
 
-    def inject(self, msg, sender, rcpts, gated=True, env_extra=None):
+    def inject(self, msg, sender, rcpts, gated=True, env_extra=None, envcut=None):
         """run the real qmail-queue to completion (its calls interleave with the daemon's only through the chooser)"""
         import qqrun
         indir = os.path.join(self.tree.root, "in")
@@ -443,7 +443,8 @@ class Controller:
         with open(mp, "wb") as f:
             f.write(msg)
         with open(ep, "wb") as f:
-            f.write(qqrun.envelope(sender, rcpts))
+            envb = qqrun.envelope(sender, rcpts)
+            f.write(envb if envcut is None else envb[: max(0, len(envb) - envcut)])     # envcut: the envelope stream ends early
         e = self.env("inject%d" % self.injn)
         if env_extra:
             e.update(env_extra)
